@@ -10,9 +10,33 @@ package sched
 import (
 	"fmt"
 	"runtime/debug"
+	"sort"
 	"strings"
 	"sync/atomic"
 )
+
+// HB is a happens-before hash cell. Every thread and every shim object carries one. When a thread operates on an object
+// both cells absorb each other (vector-clock style), so a thread's cell is a digest of its entire causal past. The
+// multiset of all thread cells therefore identifies the execution's partial order of synchronisation operations:
+// two executions that reach the same multiset are Mazurkiewicz-equivalent and (for data-race-free code) in the same
+// global state. The explorer uses it to prune states it has already expanded (state caching).
+type HB struct{ A, B uint64 }
+
+func mix64(x uint64) uint64 {
+	x ^= x >> 33
+	x *= 0xff51afd7ed558ccd
+	x ^= x >> 33
+	x *= 0xc4ceb9fe1a85ec53
+	x ^= x >> 33
+	return x
+}
+
+func (h HB) absorb(o HB, code uint64) HB {
+	return HB{
+		A: mix64(h.A*0x9e3779b97f4a7c15 ^ o.A + code*0xd6e8feb86659fd93 + 0x2545f4914f6cdd1d),
+		B: mix64(h.B*0xc2b2ae3d27d4eb4f ^ (o.B<<1 | o.B>>63) + code*0x165667b19e3779f9 + 0x27d4eb2f165667c5),
+	}
+}
 
 // Alt is one alternative of a pending operation (a plain operation has one; a select has one per case).
 type Alt struct {
@@ -21,6 +45,8 @@ type Alt struct {
 	// Partners, if non-nil, lists the threads this alternative could rendezvous with; the alternative is then enabled
 	// once per partner (Enabled is ignored).
 	Partners func() []int
+	// HB is the happens-before cell of the object this alternative operates on (nil: thread-local step).
+	HB *HB
 }
 
 type Op struct {
@@ -28,6 +54,8 @@ type Op struct {
 	Alts []Alt
 	// Object is an identifier of the object operated on (for traces).
 	Object any
+	// Code identifies the kind of operation for happens-before hashing (must not depend on the interleaving).
+	Code uint64
 }
 
 type Chosen struct {
@@ -54,6 +82,8 @@ type thread struct {
 	resolvedOK    bool
 	panicked      any
 	panicStack    string
+	hb            HB
+	spawned       uint64
 }
 
 type transition struct {
@@ -94,6 +124,8 @@ type Result struct {
 	Steps    int
 	Threads  int
 	Trace    []string
+	// Keys[i] is the global state key before decision i (only when state hashing is on).
+	Keys []HB
 }
 
 type abortPanic struct{}
@@ -109,12 +141,16 @@ type Scheduler struct {
 	aborting bool
 	trace    bool
 	locals   map[any]any
+	hashing  bool
 }
 
 var current atomic.Pointer[Scheduler]
 
 // Current returns the scheduler controlling this process right now, or nil (shims then behave natively).
 func Current() *Scheduler { return current.Load() }
+
+// Hashing reports whether happens-before state hashing (state caching) is on for this execution.
+func (s *Scheduler) Hashing() bool { return s != nil && s.hashing }
 
 // Active reports whether s is non-nil and not tearing an execution down.
 func (s *Scheduler) Active() bool { return s != nil && !s.aborting }
@@ -124,6 +160,13 @@ func (s *Scheduler) ThreadID() int { return s.running.id }
 
 func (s *Scheduler) newThread(name string, f func()) *thread {
 	th := &thread{id: len(s.threads), name: name, wake: make(chan struct{}, 1)}
+	if s.running != nil {
+		s.running.spawned++
+		th.hb = s.running.hb.absorb(HB{A: s.running.spawned, B: ^s.running.spawned}, 0x5a17)
+		s.running.hb = s.running.hb.absorb(HB{}, 0x5a18)
+	} else {
+		th.hb = HB{A: 0x1234567, B: 0x89abcdef}
+	}
 	th.pending = &Op{Desc: "start " + name, Alts: []Alt{{Enabled: func() bool { return true }}}}
 	s.threads = append(s.threads, th)
 	go func() {
@@ -177,7 +220,61 @@ func (s *Scheduler) Yield(desc string, obj any) {
 	s.Park(&Op{Desc: desc, Object: obj, Alts: []Alt{{Enabled: alwaysEnabled}}})
 }
 
+// YieldOn is Yield for an operation on an object with a happens-before cell.
+func (s *Scheduler) YieldOn(desc string, cell *HB, code uint64) {
+	s.Park(&Op{Desc: desc, Code: code, Alts: []Alt{{Enabled: alwaysEnabled, HB: cell}}})
+}
+
 func alwaysEnabled() bool { return true }
+
+// Touch records an operation that is performed inline (without parking) on an object: lock releases, cancellation.
+func (s *Scheduler) Touch(cell *HB, code uint64) {
+	if s == nil || s.running == nil || cell == nil {
+		return
+	}
+	t := s.running
+	old := *cell
+	*cell = old.absorb(t.hb, code)
+	t.hb = t.hb.absorb(old, code)
+}
+
+// TouchPartner lets a rendezvous absorb the partner thread as well.
+func (s *Scheduler) TouchPartner(partner int, cell *HB, code uint64) {
+	if s == nil || cell == nil {
+		return
+	}
+	p := s.threads[partner]
+	p.hb = p.hb.absorb(*cell, code)
+}
+
+func (s *Scheduler) stateKey() HB {
+	// multiset of (thread cell, status) in canonical order + the running thread (it decides what a preemption is)
+	cells := make([]HB, 0, len(s.threads))
+	for _, th := range s.threads {
+		c := th.hb
+		if th.done {
+			c = c.absorb(HB{A: 1}, 0xd07e)
+		}
+		if th.resolved {
+			c = c.absorb(HB{A: uint64(th.resolvedAlt) + 2}, 0x7e50)
+		}
+		cells = append(cells, c)
+	}
+	sort.Slice(cells, func(i, j int) bool {
+		if cells[i].A != cells[j].A {
+			return cells[i].A < cells[j].A
+		}
+		return cells[i].B < cells[j].B
+	})
+	k := HB{A: 0x51a7e, B: 0xce11}
+	for _, c := range cells {
+		k = k.absorb(c, 1)
+	}
+	if s.running != nil && !s.running.done {
+		k = k.absorb(s.running.hb, 2)
+	}
+	return k
+}
 
 // PendingOf returns the pending operation of a parked thread (nil if running/done). Used by channel shims to find
 // rendezvous partners.
@@ -256,8 +353,8 @@ type ReplayDivergence struct{ Msg string }
 func (e ReplayDivergence) Error() string { return "REPLAY-DIVERGENCE: " + e.Msg }
 
 // RunOnce executes main under the scheduler following prefix, then choice 0 at every later point.
-func RunOnce(main func(s *Scheduler), prefix []int, horizon int, trace bool) (*Result, error) {
-	s := &Scheduler{parkedC: make(chan struct{}), prefix: prefix, horizon: horizon, trace: trace, locals: map[any]any{}}
+func RunOnce(main func(s *Scheduler), prefix []int, horizon int, trace, hashing bool) (*Result, error) {
+	s := &Scheduler{parkedC: make(chan struct{}), prefix: prefix, horizon: horizon, trace: trace, locals: map[any]any{}, hashing: hashing}
 	s.res = &Result{}
 	if !current.CompareAndSwap(nil, s) {
 		return nil, fmt.Errorf("a scheduler is already active in this process")
@@ -316,8 +413,25 @@ func RunOnce(main func(s *Scheduler), prefix []int, horizon int, trace bool) (*R
 		s.res.Points = append(s.res.Points, pt)
 		s.res.Choices = append(s.res.Choices, choice)
 		s.res.Steps++
+		if s.hashing {
+			s.res.Keys = append(s.res.Keys, s.stateKey())
+		}
 
 		th := tr.th
+		if !th.resolved {
+			code := th.pending.Code*31 + uint64(tr.alt) + 1
+			if cell := th.pending.Alts[tr.alt].HB; cell != nil {
+				old := *cell
+				*cell = old.absorb(th.hb, code)
+				th.hb = th.hb.absorb(old, code)
+				if tr.partner >= 0 {
+					p := s.threads[tr.partner]
+					p.hb = p.hb.absorb(*cell, code^0xfeed)
+				}
+			} else {
+				th.hb = th.hb.absorb(HB{}, code)
+			}
+		}
 		if th.resolved {
 			th.chosen = Chosen{Alt: th.resolvedAlt, Partner: -1, Resolved: true, Value: th.resolvedValue, ValueOK: th.resolvedOK}
 			th.resolved = false
